@@ -32,7 +32,7 @@ func (l Lbl) core() core.BuildLabel {
 	return core.BuildLabel{Subrepo: l.Sub, PackageName: l.Pkg, Name: l.Name}
 }
 func fromCore(l core.BuildLabel) Lbl { return Lbl{l.Subrepo, l.PackageName, l.Name} }
-func (l Lbl) String() string       { return l.core().String() }
+func (l Lbl) String() string         { return l.core().String() }
 
 type TSpec struct {
 	L         Lbl                 `json:"label"`
@@ -200,17 +200,47 @@ func labelsOf(ls []Lbl) []core.BuildLabel {
 }
 
 // ---------------------------------------------------------------------------------------------
-// Coq printers
+// wire format of a case (decoded by Model/C25.v `dec`): one string, five separator bytes
 
-func coqLabel(l core.BuildLabel) string {
-	return lib.App("L", lib.Str(l.Subrepo), lib.Str(l.PackageName), lib.Str(l.Name))
+const seps = "^!|;,"
+
+func clean(x string) string {
+	if strings.ContainsAny(x, seps+"\"") {
+		panic("C25 harness: the string " + x + " contains a separator of the wire format")
+	}
+	for i := 0; i < len(x); i++ {
+		if x[i] < 0x20 || x[i] > 0x7e {
+			panic("C25 harness: non-printable byte in " + x)
+		}
+	}
+	return x
 }
-func coqLabels(ls []core.BuildLabel) string {
+
+func wLabel(l core.BuildLabel) string {
+	return clean(l.Subrepo) + "," + clean(l.PackageName) + "," + clean(l.Name)
+}
+func wLabels(ls []core.BuildLabel) string {
 	out := make([]string, len(ls))
 	for i, l := range ls {
-		out[i] = coqLabel(l)
+		out[i] = wLabel(l)
 	}
-	return lib.List(out)
+	return strings.Join(out, ";")
+}
+func wStrs(xs []string) string {
+	out := make([]string, len(xs))
+	for i, x := range xs {
+		if x == "" {
+			panic("C25 harness: empty string in a list")
+		}
+		out[i] = clean(x)
+	}
+	return strings.Join(out, ";")
+}
+func wBool(b bool) string {
+	if b {
+		return "1"
+	}
+	return "0"
 }
 
 func dataPaths(t *core.BuildTarget) []string {
@@ -223,20 +253,20 @@ func dataPaths(t *core.BuildTarget) []string {
 	return out
 }
 
-func coqGraph(b *built) string {
+func wGraph(b *built) string {
 	ts := []string{}
 	for _, t := range b.graph.AllTargets() {
 		res := []core.BuildLabel{}
 		for _, d := range t.Dependencies() {
 			res = append(res, d.Label)
 		}
-		sub := "None"
+		sub := ""
 		if t.Subrepo != nil && t.Subrepo.Target != nil {
-			sub = lib.Some(coqLabel(t.Subrepo.Target.Label))
+			sub = wLabel(t.Subrepo.Target.Label)
 		}
-		ts = append(ts, lib.App("T", coqLabel(t.Label), lib.Bool(t.IsBinary), lib.Bool(t.IsTest()), lib.Bool(t.TestOnly),
-			lib.StrList(t.Labels), coqLabels(t.DeclaredDependencies()), coqLabels(res), sub,
-			lib.StrList(t.AllLocalSourcePaths()), lib.StrList(dataPaths(t))))
+		ts = append(ts, strings.Join([]string{wLabel(t.Label), wBool(t.IsBinary) + wBool(t.IsTest()) + wBool(t.TestOnly),
+			wStrs(t.Labels), wLabels(t.DeclaredDependencies()), wLabels(res), sub,
+			wStrs(t.AllLocalSourcePaths()), wStrs(dataPaths(t))}, "|"))
 	}
 	ps := []string{}
 	pm := b.graph.PackageMap()
@@ -247,14 +277,20 @@ func coqGraph(b *built) string {
 			names = append(names, t.Label)
 		}
 		sort.Slice(names, func(i, j int) bool { return names[i].Less(names[j]) })
-		ps = append(ps, lib.App("P", lib.Str(p.SubrepoName), lib.Str(p.Name), coqLabels(p.Subincludes), coqLabels(names)))
+		ps = append(ps, strings.Join([]string{clean(p.SubrepoName), clean(p.Name), wLabels(p.Subincludes), wLabels(names)}, "|"))
 	}
-	return lib.App("G", lib.List(ts), lib.List(ps))
+	return strings.Join(ts, "!") + "^" + strings.Join(ps, "!")
 }
 
-func coqArgs(a *ASpec) string {
-	return lib.App("A", coqLabels(labelsOf(a.Filter)), coqLabels(labelsOf(a.Targets)), coqLabels(labelsOf(a.Keep)),
-		lib.StrList(a.KeepLabels), lib.Bool(a.Conservative))
+func wArgs(a *ASpec) string {
+	return strings.Join([]string{wLabels(labelsOf(a.Filter)), wLabels(labelsOf(a.Targets)), wLabels(labelsOf(a.Keep)),
+		wStrs(a.KeepLabels), wBool(a.Conservative)}, "|")
+}
+
+// wCase: graph ^ packages ^ args ^ removed ^ removed sources ^ publicDependencies observations ^ gcSibling observations
+func wCase(b *built, a *ASpec, out outcome, pubs, sibs []string) string {
+	return `(dec "` + strings.Join([]string{wGraph(b), wArgs(a), wLabels(out.removed), wStrs(out.srcs),
+		strings.Join(pubs, "!"), strings.Join(sibs, "!")}, "^") + `")`
 }
 
 // ---------------------------------------------------------------------------------------------
@@ -920,7 +956,7 @@ func main() {
 		if c.ReadReplay(&replay) {
 			b := build(&replay)
 			out := run(b, &replay.A)
-			c.Case(lib.App("CGc", coqGraph(b), coqArgs(&replay.A), coqLabels(out.removed), lib.StrList(out.srcs)), &replay, "replay", true)
+			c.Case(wCase(b, &replay.A, out, nil, nil), &replay, "replay", true)
 			oracle(c, b, &replay, out)
 			return
 		}
@@ -939,7 +975,28 @@ func main() {
 			nontrivial := len(out.removed) > 0 && len(out.removed) < len(in.Targets) && nTests > 0
 			js := map[string]any{"graph": in.Targets, "packages": in.Pkgs, "args": in.A, "removed": jsLabels(out.removed), "removed_srcs": out.srcs}
 			if withModel {
-				c.Case(lib.App("CGc", coqGraph(b), coqArgs(&in.A), coqLabels(out.removed), lib.StrList(out.srcs)), js, key, nontrivial)
+				// the two helper functions on their own, on a few targets of the same graph
+				pubs, sibs := []string{}, []string{}
+				pubsJS, sibsJS := map[string][]string{}, map[string]string{}
+				for _, t := range b.graph.AllTargets() {
+					if t.IsTest() && len(pubs) < 3 {
+						deps := []core.BuildLabel{}
+						for _, d := range gc.VerifPublicDependencies(b.graph, t) {
+							deps = append(deps, d.Label)
+						}
+						pubs = append(pubs, wLabel(t.Label)+"|"+wLabels(deps))
+						pubsJS[t.Label.String()] = jsLabels(deps)
+					}
+					if len(t.PrefixedLabels("gc_sibling:")) > 0 {
+						sb := gc.VerifGcSibling(b.graph, t)
+						sibs = append(sibs, wLabel(t.Label)+"|"+wLabel(sb.Label))
+						sibsJS[t.Label.String()] = sb.Label.String()
+					}
+				}
+				js["public_dependencies"], js["gc_sibling"] = pubsJS, sibsJS
+				c.Case(wCase(b, &in.A, out, pubs, sibs), js, key, nontrivial)
+				c.HistN("model_pubdeps_checked", len(pubs))
+				c.HistN("model_siblings_checked", min(len(sibs), 4))
 			} else {
 				c.Eval(js, key, nontrivial)
 			}
@@ -949,27 +1006,6 @@ func main() {
 			c.HistN(stream+"_removed_srcs", min(len(out.srcs), 6))
 			c.Hist(stream+"_mode", map[bool]string{true: "conservative", false: "default"}[in.A.Conservative])
 			c.Hist(stream+"_violating", map[bool]string{true: "yes", false: "no"}[v > 0])
-			if withModel {
-				// the two helper functions on their own, on a few targets of the same graph
-				g := coqGraph(b)
-				k := 0
-				for _, t := range b.graph.AllTargets() {
-					if t.IsTest() && k < 2 {
-						k++
-						deps := []core.BuildLabel{}
-						for _, d := range gc.VerifPublicDependencies(b.graph, t) {
-							deps = append(deps, d.Label)
-						}
-						c.Case(lib.App("CPub", g, coqLabel(t.Label), coqLabels(deps)),
-							map[string]any{"graph": in.Targets, "public_dependencies_of": t.Label.String(), "result": jsLabels(deps)}, "pub"+key+t.Label.String(), len(deps) > 0)
-					}
-					if len(t.PrefixedLabels("gc_sibling:")) > 0 {
-						sb := gc.VerifGcSibling(b.graph, t)
-						c.Case(lib.App("CSib", g, coqLabel(t.Label), coqLabel(sb.Label)),
-							map[string]any{"graph": in.Targets, "gc_sibling_of": t.Label.String(), "result": sb.Label.String()}, "sib"+key+t.Label.String(), sb != t)
-					}
-				}
-			}
 		}
 
 		for _, w := range witnesses() {
